@@ -147,6 +147,163 @@ class Runner:
                       (typ, zid, pr, q, want_type, ids[want], names[want]))
 
 
+# --------------------------------------------------------------------------------------------------------------------
+# histories over several managers living in one process (the oracle is stateless, so any dependence of a lookup on earlier
+# lookups, on other registries of the same kind, or on zones created through createForZoneInfo() shows as a mismatch)
+# --------------------------------------------------------------------------------------------------------------------
+
+def run_manager_history(exe, h, upto=None):
+    """h = {db, regs: [{cache, zones}], ops: [(k, kind, arg)]}. Fresh process. -> None or (op index, key, message)."""
+    db = h["db"]
+    drv = rpcdrv.Driver(exe)
+    want_type = "4" if db == "b" else "5"
+    try:
+        mids = []
+        for r in h["regs"]:
+            mids.append(int(drv.cmd("MGR %s %d %d %s" % (db, r["cache"], len(r["zones"]), " ".join(str(z) for z in r["zones"])), timeout=TIMEOUT)))
+        ops = h["ops"] if upto is None else h["ops"][:upto]
+        for i, (k, kind, arg) in enumerate(ops):
+            names = [NAMES[db][z] for z in h["regs"][k]["zones"]]
+            ids = [IDS[db][z] for z in h["regs"][k]["zones"]]
+            m = mids[k]
+            try:
+                if kind == "info":
+                    r2 = drv.cmd("MTZ %d info %d" % (m, arg), timeout=TIMEOUT)
+                    tzid, typ = r2.split()
+                    zid = drv.cmd("Q %s id" % tzid, timeout=TIMEOUT)
+                    pr = drv.cmd("Q %s print" % tzid, timeout=TIMEOUT)
+                    if typ != want_type or int(zid) != IDS[db][arg] or pr != '"%s"' % NAMES[db][arg]:
+                        return i, "history:info", "createForZoneInfo(%s) gave type %s id %s name %s" % (NAMES[db][arg], typ, zid, pr)
+                    continue
+                if kind == "name":
+                    want = names.index(arg) if arg in names else 0xFFFF
+                    r = drv.cmd("IDX %d name %s" % (m, rpcdrv.hexname(arg)), timeout=TIMEOUT)
+                    r2 = drv.cmd("MTZ %d name %s" % (m, rpcdrv.hexname(arg)), timeout=TIMEOUT)
+                elif kind == "id":
+                    want = ids.index(arg) if arg in ids else 0xFFFF
+                    r = drv.cmd("IDX %d id %d" % (m, arg), timeout=TIMEOUT)
+                    r2 = drv.cmd("MTZ %d id %d" % (m, arg), timeout=TIMEOUT)
+                else:
+                    want = arg if arg < len(names) else 0xFFFF
+                    r = str(want)
+                    r2 = drv.cmd("MTZ %d index %d" % (m, arg), timeout=TIMEOUT)
+                pa = "present" if want != 0xFFFF else "absent"
+                if int(r) != want:
+                    return i, "history:%s:%s:index" % (kind, pa), "indexFor %s %r on registry %d = %s, want %d" % (kind, arg, k, r, want)
+                tzid, typ = r2.split()
+                if want == 0xFFFF:
+                    if typ != "0":
+                        return i, "history:%s:absent:tz" % kind, "createFor %s %r on registry %d (which does not contain it) gave a zone of type %s, want the error zone" % (kind, arg, k, typ)
+                else:
+                    zid = drv.cmd("Q %s id" % tzid, timeout=TIMEOUT)
+                    pr = drv.cmd("Q %s print" % tzid, timeout=TIMEOUT)
+                    if typ != want_type or int(zid) != ids[want] or pr != '"%s"' % names[want]:
+                        return i, "history:%s:present:tz" % kind, "createFor %s %r on registry %d gave type %s id %s name %s, want %s" % (kind, arg, k, typ, zid, pr, names[want])
+            except rpcdrv.Hang:
+                return i, "history:hang:%s" % kind, "lookup (%s %r on registry %d) did not terminate within %.0f s" % (kind, arg, k, TIMEOUT)
+            except rpcdrv.Crash as c:
+                return i, "history:crash:%s:%s" % (kind, c.bucket()[:50]), "lookup (%s %r on registry %d) crashed: %s" % (kind, arg, k, c.stderr[-600:])
+        return None
+    finally:
+        drv.close()
+
+
+def shrink_manager_history(exe, h, key):
+    f = run_manager_history(exe, h)
+    if f is None:
+        return h
+    cur = dict(h, ops=list(h["ops"][:f[0] + 1]))
+    i = len(cur["ops"]) - 2
+    while i >= 0:
+        cand = dict(cur, ops=cur["ops"][:i] + cur["ops"][i + 1:])
+        g = run_manager_history(exe, cand)
+        if g is not None and g[1] == key:
+            cur = cand
+        i -= 1
+    return cur
+
+
+def manager_histories(ctx, exe, thorough):
+    fails = {}
+    stats = {"n": 0, "ops": 0, "sorted_then_unsorted": 0, "info_outside_then_lookup": 0}
+
+    def registry(draw, db, shape):
+        total = len(NAMES[db])
+        n = {"single": 1, "empty": 0}.get(shape)
+        if n is None:
+            n = draw(st.integers(6, 14))
+        z = draw(st.lists(st.integers(0, total - 1), min_size=n, max_size=n, unique=True))
+        if shape == "sorted":
+            z = sorted(z)
+        elif shape == "shuffled" and z == sorted(z):
+            z = z[::-1]
+        return z
+
+    @hypothesis.seed(ctx.seed)
+    @settings(max_examples=1500 if thorough else 160, deadline=None, database=None, phases=[Phase.generate], suppress_health_check=list(HealthCheck))
+    @given(st.data())
+    def hist(data):
+        draw = data.draw
+        db = draw(st.sampled_from(["b", "x"]))
+        total = len(NAMES[db])
+        shapes = draw(st.lists(st.sampled_from(["sorted", "shuffled", "sorted", "shuffled", "single", "empty"]), min_size=2, max_size=3))
+        regs = [dict(cache=draw(st.integers(1, 4)), zones=registry(draw, db, sh), shape=sh) for sh in shapes]
+        ops = []
+        nops = draw(st.integers(6, 30))
+        outside_created = set()
+        for _ in range(nops):
+            k = draw(st.integers(0, len(regs) - 1))
+            zs = regs[k]["zones"]
+            kind = draw(st.sampled_from(["name", "name", "id", "id", "index", "info"]))
+            inside = draw(st.booleans()) and len(zs) > 0
+            # absent names / ids are real zones of the database that this registry does not list, preferably ones already
+            # handed to createForZoneInfo() or present in another registry of the same process
+            others = sorted(set(z for r in regs for z in r["zones"]) | outside_created)
+            if inside:
+                z = zs[draw(st.integers(0, len(zs) - 1))]
+            elif others and draw(st.booleans()):
+                z = others[draw(st.integers(0, len(others) - 1))]
+            else:
+                z = draw(st.integers(0, total - 1))
+            if kind == "info":
+                ops.append((k, "info", z))
+                if z not in zs:
+                    outside_created.add(z)
+            elif kind == "name":
+                ops.append((k, "name", NAMES[db][z]))
+            elif kind == "id":
+                ops.append((k, "id", IDS[db][z]))
+            else:
+                ops.append((k, "index", draw(st.integers(0, len(zs) + 1))))
+        h = {"db": db, "regs": [dict(cache=r["cache"], zones=r["zones"]) for r in regs], "ops": ops}
+        stats["n"] += 1
+        stats["ops"] += len(ops)
+        first = {}
+        for i, (k, kind, arg) in enumerate(ops):
+            if kind in ("name",):
+                first.setdefault(k, i)
+        order = sorted(first, key=first.get)
+        if len(order) >= 2 and shapes[order[0]] in ("sorted", "single") and any(shapes[k] == "shuffled" for k in order[1:]):
+            stats["sorted_then_unsorted"] += 1
+        if outside_created:
+            stats["info_outside_then_lookup"] += 1
+        f = run_manager_history(exe, h)
+        ctx.evaluations += len(ops)
+        if f is not None and f[1] not in fails:
+            fails[f[1]] = (h, f)
+
+    hist()
+    for key, (h, f) in sorted(fails.items()):
+        small = shrink_manager_history(exe, h, key)
+        g = run_manager_history(exe, small) or f
+        ctx.violation(key, {"history": small}, "history of %d lookups over %d registries in one process (minimised from %d): %s\n  registries: %s\n  ops: %s" %
+                      (len(small["ops"]), len(small["regs"]), len(h["ops"]), g[2],
+                       [[NAMES[small["db"]][z] for z in r["zones"]] for r in small["regs"]], small["ops"]))
+    for k, v in stats.items():
+        ctx.count("manager_histories_" + k, v)
+    return stats
+
+
 def run(ctx):
     ctx.assumptions = [
         "oracle = linear scan with exact string / integer equality over the registry's names and ids (Python)",
@@ -163,6 +320,13 @@ def run(ctx):
     R = Runner(ctx, drv)
     if ctx.replay:
         r = json.load(open(ctx.replay))["replay"]
+        if "history" in r:
+            drv.close()
+            f = run_manager_history(exe, r["history"])
+            ctx.evaluations += 1
+            if f is not None:
+                ctx.violation(f[1], {"history": r["history"]}, f[2])
+            return
         reg = dict(db=r["db"], cache=r["size"], zones=r["zones"], shape="replay")
         R.check_registry(reg, only_query=r["query"])
         drv.close()
@@ -225,7 +389,10 @@ def run(ctx):
 
     fuzz()
     ctx.count("hypothesis_query_strings", fuzz_n[0])
-    ctx.nontrivial = len(R.nt)
+    hs = manager_histories(ctx, exe, thorough)
+    if hs["sorted_then_unsorted"] < 5 or hs["info_outside_then_lookup"] < 5:
+        raise vt.HarnessError("manager-history generator does not reach the interesting classes: %r" % hs)
+    ctx.nontrivial = len(R.nt) + hs["sorted_then_unsorted"] + hs["info_outside_then_lookup"]
     ctx.extra["registries"] = nreg
     for s in samples:
         ctx.sample(s)
@@ -235,8 +402,12 @@ def run(ctx):
                 "subset, shuffled subsets, sorted with first / last pair swapped, and the two full registries; queries: every "
                 "present name, an absent name inside every gap (prev+'!'), below the first, above the last, empty, proper "
                 "prefixes/extensions, an absent name with the same djb2 hash as each present name, every present id, 0, 0xFFFFFFFF, id+-1, indices 0..n+1, 255, 256, 0xFFFF, plus "
-                "Hypothesis-drawn byte strings; each through indexFor*/createFor*. Non-trivial = distinct (size, shape, gap "
-                "index) of absent names on sorted registries of size >= 6 (the binary-search path)")
+                "Hypothesis-drawn byte strings; each through indexFor*/createFor*; plus Hypothesis-drawn histories of 6..30 lookups "
+                "(name/id/index/createForZoneInfo, present and absent, absent ones preferring zones known to another registry or "
+                "created through createForZoneInfo) over 2..3 registries (sorted/shuffled/single/empty) living in one fresh process, "
+                "every answer against the stateless linear-scan model. Non-trivial = distinct (size, shape, gap index) of absent "
+                "names on sorted registries of size >= 6 (the binary-search path) + histories that query a sorted registry before "
+                "an unsorted one + histories that look up a zone created outside the registry")
     drv.close()
 
 
